@@ -3,6 +3,7 @@ package props
 import (
 	"context"
 	"fmt"
+	"strings"
 	"sync"
 	"sync/atomic"
 	"testing"
@@ -427,10 +428,133 @@ func c12Concurrent(c *sim.Case) {
 	c.FP(fmt.Sprint(progs))
 }
 
+// c12Agree: one operation sequence, one clock, both kinds of store, absolute and idle timeouts drawn. Whatever "a
+// plain map with created and last used" means for an operation that is not obviously a use (clearing, a read that
+// finds nothing), both stores must mean the same: outside the one-second bands around every instant at which either
+// reading could put a limit, a read finds the session in both stores or in neither, with equal content.
+func c12Agree(c *sim.Case) {
+	secs := []int{0, 3, 10, 60}
+	abs := time.Duration(secs[sim.Pick(c, "abs", len(secs))]) * time.Second
+	idle := time.Duration(secs[sim.Pick(c, "idle", len(secs))]) * time.Second
+	clk := sim.NewVClock()
+	mem := sim.NewStore("memory", clk, abs, idle)
+	red := []oidc.SessionStore{sim.NewStore("redis", clk, abs, idle)}
+	_, cl := sim.Redis()
+	st2, err := oidc.NewRedisStore(clk.OIDCClock(), cl, abs, idle)
+	if err != nil {
+		panic(err)
+	}
+	red = append(red, st2)
+	ctx := context.Background()
+	ids := []string{"a", "b"}
+	touched := map[string][]time.Time{} // every instant at which an operation named the id
+	tainted := map[string]bool{}
+	near := func(id string) bool {
+		now := clk.Now()
+		band := 1100 * time.Millisecond
+		for _, u := range touched[id] {
+			for _, lim := range []time.Duration{abs, idle} {
+				if lim > 0 {
+					if d := now.Sub(u.Add(lim)); d > -band && d < band {
+						return true
+					}
+				}
+			}
+		}
+		return false
+	}
+	n := 3 + sim.Pick(c, "nops", 20)
+	var seq []string
+	reads, clears, advancedPast := 0, 0, false
+	for i := 0; i < n; i++ {
+		if (abs > 0 || idle > 0) && sim.Weighted(c, "advance", 3, 1) == 1 {
+			var d time.Duration
+			if sim.Bool(c, "adv.to-limit") {
+				lim := idle
+				if lim == 0 || (abs > 0 && sim.Bool(c, "adv.abs")) {
+					lim = abs
+				}
+				d = lim*time.Duration(1+sim.Pick(c, "adv.frac", 4))/3 + time.Duration(sim.Pick(c, "adv.ms", 1000))*time.Millisecond
+			} else {
+				d = time.Duration(1+sim.Pick(c, "adv.s", 45)) * time.Second
+			}
+			clk.Advance(d)
+			seq = append(seq, fmt.Sprintf("+%v", d))
+			advancedPast = true
+			continue
+		}
+		op := c12Ops[sim.Pick(c, "op", len(c12Ops))]
+		id := ids[sim.Pick(c, "id", len(ids))]
+		r := red[sim.Pick(c, "replica", 2)]
+		seq = append(seq, op+"("+id+")")
+		wasNear := near(id)
+		var diverged string
+		switch {
+		case strings.HasPrefix(op, "SetTok"):
+			v := int(op[len(op)-1] - '0')
+			e1, e2 := mem.SetTokenResponse(ctx, id, c12Tok(v)), r.SetTokenResponse(ctx, id, c12Tok(v))
+			if (e1 != nil) != (e2 != nil) {
+				diverged = fmt.Sprintf("memory err=%v, redis err=%v", e1, e2)
+			}
+		case strings.HasPrefix(op, "SetAuth"):
+			v := int(op[len(op)-1] - '0')
+			e1, e2 := mem.SetAuthorizationState(ctx, id, c12Auth(v)), r.SetAuthorizationState(ctx, id, c12Auth(v))
+			if (e1 != nil) != (e2 != nil) {
+				diverged = fmt.Sprintf("memory err=%v, redis err=%v", e1, e2)
+			}
+		case op == "ClearAuth":
+			_, _ = mem.ClearAuthorizationState(ctx, id), r.ClearAuthorizationState(ctx, id)
+			clears++
+		case op == "Remove":
+			_, _ = mem.RemoveSession(ctx, id), r.RemoveSession(ctx, id)
+		case op == "GetTok":
+			t1, e1 := mem.GetTokenResponse(ctx, id)
+			t2, e2 := r.GetTokenResponse(ctx, id)
+			reads++
+			if e1 != nil || e2 != nil {
+				diverged = fmt.Sprintf("memory err=%v, redis err=%v", e1, e2)
+			} else if !tokEq(t1, t2) {
+				diverged = fmt.Sprintf("memory found=%v, redis found=%v (or different members)", t1 != nil, t2 != nil)
+			}
+		case op == "GetAuth":
+			a1, e1 := mem.GetAuthorizationState(ctx, id)
+			a2, e2 := r.GetAuthorizationState(ctx, id)
+			reads++
+			if e1 != nil || e2 != nil {
+				diverged = fmt.Sprintf("memory err=%v, redis err=%v", e1, e2)
+			} else if !authEq(a1, a2) {
+				diverged = fmt.Sprintf("memory found=%v, redis found=%v (or different members)", a1 != nil, a2 != nil)
+			}
+		}
+		touched[id] = append(touched[id], clk.Now())
+		isRead := op == "GetTok" || op == "GetAuth"
+		if op == "Remove" {
+			// both stores hold nothing under the id now, whatever they held
+			touched[id], tainted[id] = nil, false
+		} else if wasNear && (!isRead || diverged != "") {
+			// inside a tolerance band either view of the session is fine, and a write there lands on the old session
+			// in one store and on a new one in the other without showing: the id is not compared any more
+			tainted[id] = true
+			c.Class("agree:id-left-in-tolerance-band")
+		}
+		if diverged != "" && !tainted[id] {
+			c.Logf("abs=%v idle=%v: %v", abs, idle, seq)
+			c.Violation("stores-disagree:"+strings.TrimRight(op, "0123456789"), "abs=%v idle=%v after %v: %s - no single map with created / last used explains both stores", abs, idle, seq, diverged)
+		}
+	}
+	if reads > 0 && advancedPast && (clears > 0 || idle > 0) {
+		c.NonTrivial()
+	}
+	if idle > 0 {
+		c.Class("agree:with-idle-timeout")
+	}
+	c.FP("agree", abs, idle, fmt.Sprint(seq))
+}
+
 func TestC12(t *testing.T) {
 	r := sim.NewRun(t, "C12")
 	defer r.Finish()
-	r.Rule = "store operation sequences over ids {a,b,c}: SetTokens(v1 full | v2 without access/refresh token and expiry), GetTokens, SetLoginState(s1|s2), GetLoginState, ClearLoginState, Remove, clock advances (with an absolute timeout, for the creation-time clause); for Redis every op is routed to one of two store instances on one miniredis. Exhaustive: all sequences of a fixed length over a 16-letter (op,id) alphabet for both stores, compared with a plain-map model after every read and by a full scan through every replica at the end; random: sequences to length 60. Concurrent tier: 2-4 goroutines x 3-8 ops on 2 ids against the memory store, histories checked for linearizability with porcupine. Non-trivial = touches >= 2 ids and has a Clear/Remove followed by a later op on the same id (sequential) / has overlapping operations of different goroutines (concurrent)."
+	r.Rule = "store operation sequences over ids {a,b,c}: SetTokens(v1 full | v2 without access/refresh token and expiry), GetTokens, SetLoginState(s1|s2), GetLoginState, ClearLoginState, Remove, clock advances (with an absolute timeout, for the creation-time clause); for Redis every op is routed to one of two store instances on one miniredis. Exhaustive: all sequences of a fixed length over a 16-letter (op,id) alphabet for both stores, compared with a plain-map model after every read and by a full scan through every replica at the end; random: sequences to length 60. Agreement tier: the same sequence (to length 22, with absolute and idle timeouts from {0,3,10,60} s and advances to fractions of a limit) on the memory store and on two Redis replicas at once; every read must find the same thing in both kinds of store outside the 1 s bands around every instant at which any reading of 'last used' could put a limit. Concurrent tier: 2-4 goroutines x 3-8 ops on 2 ids against the memory store, histories checked for linearizability with porcupine. Non-trivial = touches >= 2 ids and has a Clear/Remove followed by a later op on the same id (sequential) / has overlapping operations of different goroutines (concurrent)."
 	r.Assumptions = []string{
 		"values respect caller preconditions: parseable ID token, non-empty login-state members",
 		"an error from Clear/Remove on an absent id is not a divergence (both stores leave the id absent)",
@@ -444,7 +568,7 @@ func TestC12(t *testing.T) {
 		"exh-memory": c12Exh("memory", exLen), "exh-redis": c12Exh("redis", exLen),
 		"exh-memory-3": c12Exh("memory", 3), "exh-redis-3": c12Exh("redis", 3), "exh-memory-4": c12Exh("memory", 4), "exh-redis-4": c12Exh("redis", 4),
 		"exh-memory-5": c12Exh("memory", 5), "exh-redis-5": c12Exh("redis", 5),
-		"random": c12Random, "concurrent": c12Concurrent,
+		"random": c12Random, "concurrent": c12Concurrent, "agree": c12Agree,
 	}
 	if r.Replay != "" {
 		r.ReplayFile(parts)
@@ -455,4 +579,5 @@ func TestC12(t *testing.T) {
 	r.Exhaustive(fmt.Sprintf("exh-redis-%d", exLen), 0, parts["exh-redis"])
 	r.Rapid("random", r.N(6000, 200000), c12Random)
 	r.Rapid("concurrent", r.N(2000, 100000), c12Concurrent)
+	r.Rapid("agree", r.N(6000, 200000), c12Agree)
 }
